@@ -22,7 +22,7 @@ CHECKS = {
         "restored queue satisfies C01's order invariant from max_probability = M; update_save_config stores repr(max_probability). "
         "Bounded (never counted as proved): completeness / duplicate-freeness of the walk and the tied-group-only repeat clause, every cut point "
         "and two quit/resume cycles on small tie-rich rulesets.",
-   note="A-FP; float(repr(x))==x; ConfigParser as a map; termination of the recursive walk unverified; uuid refusal in main() not yet under contract"),
+   note="A-FP; float(repr(x))==x; ConfigParser as a map; termination of the recursive walk unverified; main() under contract with PcfgGrammar.__init__ trusted"),
  'C04': dict(level='proof', technique=TECH,
    text="_recursive_guesses is verified against the recursive spec Expand: it writes exactly the concatenations of one value per chosen group "
         "in structure order with each mask applied to the tail built so far, every combination once, and returns the number of lines written; "
@@ -40,5 +40,10 @@ CHECKS = {
         "or cut exactly by the limit; with one the loop stops after a pop and before its guesses, or between two Markov guesses, after saving. "
         "Bounded: five stdin conditions on the real CLI.",
    note="threads are not executed: the interleaving is over-approximated by volatile reads (stated rely condition); status printing to stderr only is C09's frame"),
+ 'C14': dict(level='other', technique=TECH + "; file model for the loader; bounded stand-ins for _load_terminals and the CLI",
+   text="_load_base_structures (all grammar.txt contents satisfying the line format): exactly the selected lines in order, probability float/(1-P(M)) with P(M)=0 when absent, then the C insertion; "
+        "load_save copies the saved flags; main() loads the grammar with the saved flags on --load and refuses a uuid mismatch. Bounded: insertion loop vs declarative spec, "
+        "skip_case on shipped rulesets, CLI resume.",
+   note="file system and str.split/rstrip/float as uninterpreted functions; PcfgGrammar.__init__ trusted in main(); order clause up to ties"),
 }
 NOT_APPLICABLE = {}
